@@ -399,6 +399,11 @@ def main(tier, replay):
             for j, other in enumerate(STEPS):
                 if j != k and j != 0 and k != 0:
                     work.append((k, "wrong-position", (other,), canon[other], "own"))
+            # a refused out-of-order call must leave the client where it was: right after step j was
+            # refused, step j+1 (canonical in every respect) is out of order too
+            for j, other in enumerate(STEPS):
+                if k != 0 and j != 0 and j != k and j + 1 < len(STEPS) and j + 1 != k and STEPS[j] != "Test11":
+                    work.append((k, "after-refused-step", (other, STEPS[j + 1]), canon[STEPS[j + 1]], "own-after:" + other))
             # client ids
             if k != 0:
                 for bad in ("", "deadbeef", "0", None):
@@ -494,6 +499,16 @@ def one_fault(ctx, srv, k, req, kind, path, id_mode="own", lock=None, replay=Fal
         if isinstance(p, dict) and "client_id" in p:
             if id_mode == "own":
                 p["client_id"] = cid
+            elif id_mode.startswith("own-after:"):
+                p["client_id"] = cid
+                first = copy.deepcopy(CANON[id_mode[10:]])
+                first["parameters"]["client_id"] = cid
+                o1 = outcome(c, first)
+                if o1[0] != "error":
+                    # the plain wrong-position deviation (reported by its own case) or a oneway
+                    # step: nothing to conclude about the follow-up here
+                    c.close()
+                    return
             elif id_mode.startswith("spell:"):
                 sp = id_mode[6:]
                 v = {"upper": cid.upper(), "lead0": "0" + cid, "plus": "+" + cid, "trail-space": cid + " ", "lead-space": " " + cid, "0x": "0x" + cid}[sp]
